@@ -4,6 +4,7 @@ From Coq Require Import List ZArith Reals.
 From Coquelicot Require Import Coquelicot.
 From EPG Require Import Scalar QI State Ops Diff DiffOrder2 CInst Transition Evolution CDeriv CoefT CoefE.
 From EPG Require DiffExact DiffExact2 DiffExact2Nonvac.
+From EPG Require DiffPoint DiffPoint2 DiffPoint2Nonvac Jet Jet2 RealSeq RealSeq2 RealOps2.
 Import ListNotations.
 
 (* (1) symmetry: H[a,b] = H[b,a] for every state of every run and every requested variable list *)
@@ -132,3 +133,210 @@ Example C03_order2_nonvacuous :
       dv1 (dv2 (f0 S (d_main (drun prog (dinit (init pd)))))).
 Proof. exact DiffExact2Nonvac.nv2_witness. Qed.
 Print Assumptions C03_order2_nonvacuous.
+
+(* (4) COMPOSITION, bookkeeping part (two rings).  The plain simulation runs in a ring K = S1, diff.py's first- and
+   second-order bookkeeping in a ring L = S2; ev : K -> L ring homomorphism, dv1, dv2 : K -> L point derivations
+   over ev, dv12 : K -> L additive with the second-order Leibniz rule.  If every instruction meets
+   [DiffPoint2.pair_ok12] (arrays over L = ev of the arrays over K; dv1 / dv2 of the arrays = the declared
+   first-order combinations; dv12 of the arrays = what _apply_order2 assembles from d_d2arrs through the products
+   c_p c_q plus the coefficient term of d_order2; cross_ok as in (3)), then for every program and every phase
+   state: main state = ev (plain state), the partials for v1, v2 = dv1, dv2 of it and the second-order partial
+   under Pair(v1,v2) = dv12 of it ([DiffPoint2.inv12p]).  Covers v1 <> v2 and v1 = v2 alike. *)
+Theorem C03_order2_point_exact (S1 S2 : ScalOps) (L1 : ScalLaws S1) (L2 : ScalLaws S2) (ev dv1 dv2 dv12 : S1 -> S2) :
+  ev k0 = k0 -> (forall x y, ev (x + y)%K = (ev x + ev y)%K) -> (forall x y, ev (x * y)%K = (ev x * ev y)%K) ->
+  (forall x y, dv1 (x + y)%K = (dv1 x + dv1 y)%K) -> (forall x y, dv1 (x * y)%K = (dv1 x * ev y + ev x * dv1 y)%K) ->
+  (forall x y, dv2 (x + y)%K = (dv2 x + dv2 y)%K) -> (forall x y, dv2 (x * y)%K = (dv2 x * ev y + ev x * dv2 y)%K) ->
+  (forall x y, dv12 (x + y)%K = (dv12 x + dv12 y)%K) ->
+  (forall x y, dv12 (x * y)%K = (dv12 x * ev y + dv1 x * dv2 y + dv2 x * dv1 y + ev x * dv12 y)%K) ->
+  forall (v1 v2 : var) (prog1 : list (op S1)) (prog2 : list (dinstr S2)) (n : nat) (s1 : sm S1) (ds : dstate S2),
+  DiffPoint2.prog_ok12 S1 S2 ev dv1 dv2 dv12 v1 v2 prog1 prog2 ds ->
+  DiffPoint2.inv12p S1 S2 ev dv1 dv2 dv12 v1 v2 n s1 ds ->
+  DiffPoint2.inv12p S1 S2 ev dv1 dv2 dv12 v1 v2 (DiffPoint.prun_n S1 prog1 n) (run prog1 s1) (drun prog2 ds).
+Proof. exact (DiffPoint2.point2_run S1 S2 L1 L2 ev dv1 dv2 dv12). Qed.
+Print Assumptions C03_order2_point_exact.
+
+(* Hessian / Jacobian probes after simulate(): both mixed entries for [v1; v2] are dv12 of the plain signal *)
+Theorem C03_hessian_point (S1 S2 : ScalOps) (L1 : ScalLaws S1) (L2 : ScalLaws S2) (ev dv1 dv2 dv12 : S1 -> S2) :
+  ev k0 = k0 -> (forall x y, ev (x + y)%K = (ev x + ev y)%K) -> (forall x y, ev (x * y)%K = (ev x * ev y)%K) ->
+  (forall x y, dv1 (x + y)%K = (dv1 x + dv1 y)%K) -> (forall x y, dv1 (x * y)%K = (dv1 x * ev y + ev x * dv1 y)%K) ->
+  (forall x y, dv2 (x + y)%K = (dv2 x + dv2 y)%K) -> (forall x y, dv2 (x * y)%K = (dv2 x * ev y + ev x * dv2 y)%K) ->
+  (forall x y, dv12 (x + y)%K = (dv12 x + dv12 y)%K) ->
+  (forall x y, dv12 (x * y)%K = (dv12 x * ev y + dv1 x * dv2 y + dv2 x * dv1 y + ev x * dv12 y)%K) ->
+  forall (v1 v2 : var) (prog1 : list (op S1)) (prog2 : list (dinstr S2)) (pd : S1),
+  dv1 pd = k0 -> dv2 pd = k0 -> dv12 pd = k0 ->
+  DiffPoint2.prog_ok12 S1 S2 ev dv1 dv2 dv12 v1 v2 prog1 prog2 (dinit (init (ev pd))) ->
+  nth 1 (nth 0 (hessian (drun prog2 (dinit (init (ev pd)))) [v1; v2]) []) k0 = dv12 (f0 S1 (run prog1 (init pd))) /\
+  nth 0 (nth 1 (hessian (drun prog2 (dinit (init (ev pd)))) [v1; v2]) []) k0 = dv12 (f0 S1 (run prog1 (init pd))) /\
+  jacobian (drun prog2 (dinit (init (ev pd)))) [v1; v2] =
+    [dv1 (f0 S1 (run prog1 (init pd))); dv2 (f0 S1 (run prog1 (init pd)))] /\
+  f0 S2 (d_main (drun prog2 (dinit (init (ev pd))))) = ev (f0 S1 (run prog1 (init pd))).
+Proof. exact (DiffPoint2.hessian_point S1 S2 L1 L2 ev dv1 dv2 dv12). Qed.
+Theorem C03_hessian_point_diag (S1 S2 : ScalOps) (L1 : ScalLaws S1) (L2 : ScalLaws S2) (ev dv1 dv2 dv12 : S1 -> S2) :
+  ev k0 = k0 -> (forall x y, ev (x + y)%K = (ev x + ev y)%K) -> (forall x y, ev (x * y)%K = (ev x * ev y)%K) ->
+  (forall x y, dv1 (x + y)%K = (dv1 x + dv1 y)%K) -> (forall x y, dv1 (x * y)%K = (dv1 x * ev y + ev x * dv1 y)%K) ->
+  (forall x y, dv2 (x + y)%K = (dv2 x + dv2 y)%K) -> (forall x y, dv2 (x * y)%K = (dv2 x * ev y + ev x * dv2 y)%K) ->
+  (forall x y, dv12 (x + y)%K = (dv12 x + dv12 y)%K) ->
+  (forall x y, dv12 (x * y)%K = (dv12 x * ev y + dv1 x * dv2 y + dv2 x * dv1 y + ev x * dv12 y)%K) ->
+  forall (v : var) (prog1 : list (op S1)) (prog2 : list (dinstr S2)) (pd : S1),
+  dv1 pd = k0 -> dv2 pd = k0 -> dv12 pd = k0 ->
+  DiffPoint2.prog_ok12 S1 S2 ev dv1 dv2 dv12 v v prog1 prog2 (dinit (init (ev pd))) ->
+  hessian (drun prog2 (dinit (init (ev pd)))) [v] = [[dv12 (f0 S1 (run prog1 (init pd)))]] /\
+  jacobian (drun prog2 (dinit (init (ev pd)))) [v] = [dv1 (f0 S1 (run prog1 (init pd)))] /\
+  f0 S2 (d_main (drun prog2 (dinit (init (ev pd))))) = ev (f0 S1 (run prog1 (init pd))).
+Proof. exact (DiffPoint2.hessian_point_diag S1 S2 L1 L2 ev dv1 dv2 dv12). Qed.
+Print Assumptions C03_hessian_point.
+Print Assumptions C03_hessian_point_diag.
+
+(* non-vacuity of (4) on an EXECUTED instance: K = double dual numbers over the Gaussian rationals, L = the
+   Gaussian rationals, the four coefficient maps; a five-instruction program (mixing, ScalarOp with recovery
+   declared with two variables on two parameters and the mixed table, shift, mixing, ScalarOp) meets pair_ok12;
+   the mixed Hessian entry computed by the bookkeeping is NON-ZERO and is the e1e2 coefficient of the plain run *)
+Example C03_order2_point_nonvacuous :
+  exists (S1 S2 : ScalOps) (ev dv1 dv2 dv12 : S1 -> S2) (prog1 : list (op S1)) (prog2 : list (dinstr S2)) (pd : S1)
+         (v1 v2 : var),
+    ScalLaws S1 /\ ScalLaws S2 /\
+    ev k0 = k0 /\ (forall x y, ev (x + y)%K = (ev x + ev y)%K) /\ (forall x y, ev (x * y)%K = (ev x * ev y)%K) /\
+    (forall x y, dv1 (x + y)%K = (dv1 x + dv1 y)%K) /\ (forall x y, dv1 (x * y)%K = (dv1 x * ev y + ev x * dv1 y)%K) /\
+    (forall x y, dv2 (x + y)%K = (dv2 x + dv2 y)%K) /\ (forall x y, dv2 (x * y)%K = (dv2 x * ev y + ev x * dv2 y)%K) /\
+    (forall x y, dv12 (x + y)%K = (dv12 x + dv12 y)%K) /\
+    (forall x y, dv12 (x * y)%K = (dv12 x * ev y + dv1 x * dv2 y + dv2 x * dv1 y + ev x * dv12 y)%K) /\
+    dv1 pd = k0 /\ dv2 pd = k0 /\ dv12 pd = k0 /\
+    Forall2 (DiffPoint2.pair_ok12 S1 S2 ev dv1 dv2 dv12 v1 v2 false) prog1 prog2 /\
+    nth 1 (nth 0 (hessian (drun prog2 (dinit (init (ev pd)))) [v1; v2]) []) k0 <> k0 /\
+    nth 1 (nth 0 (hessian (drun prog2 (dinit (init (ev pd)))) [v1; v2]) []) k0 = dv12 (f0 S1 (run prog1 (init pd))).
+Proof. exact DiffPoint2Nonvac.nvp_witness. Qed.
+Print Assumptions C03_order2_point_nonvacuous.
+
+(* (5) COMPOSITION, analysis part.  K = double dual numbers over C ([Jet2.DDC]: a + ax e1 + ay e2 + axy e1e2,
+   ev = a, dv1 = ax, dv2 = ay, dv12 = axy).  Forward-mode soundness of the PLAIN run: for a family of programs
+   (x, y) |-> prog whose arrays have the jets given by the program over K ([Jet2.is_jet] with [Jet2.jet2]:
+   value, d/dx at x0, d/dy at y0 for x near x0, and d/dx of the latter at x0 -- Coquelicot is_derive on real and
+   imaginary part), the signal of the run over K is the jet of the family's signal; resp. [Jet2.jet1] for a
+   one-variable family (f' near x0, f'' at x0, stored as a, f', f', f'') *)
+Theorem C03_signal_jet_mixed (x0 y0 : R) (fprog : list (Jet2.fop (R * R))) (jprog : list (op Jet2.DDC)) (pd : C) :
+  Forall2 (Jet2.is_jet (R * R) Jet2.DDC (Jet2.jet2 x0 y0) Jet2.inj4) fprog jprog ->
+  Jet2.jet2 x0 y0 (fun i => f0 Cops (Jet2.frun (R * R) fprog i (@init Cops pd)))
+            (f0 Jet2.DDC (run jprog (@init Jet2.DDC (Jet2.inj4 pd)))).
+Proof. exact (Jet2.signal_jet2 x0 y0 fprog jprog pd). Qed.
+Theorem C03_signal_jet_diag (x0 : R) (fprog : list (Jet2.fop R)) (jprog : list (op Jet2.DDC)) (pd : C) :
+  Forall2 (Jet2.is_jet R Jet2.DDC (Jet2.jet1 x0) Jet2.inj4) fprog jprog ->
+  Jet2.jet1 x0 (fun i => f0 Cops (Jet2.frun R fprog i (@init Cops pd)))
+            (f0 Jet2.DDC (run jprog (@init Jet2.DDC (Jet2.inj4 pd)))).
+Proof. exact (Jet2.signal_jet1 x0 fprog jprog pd). Qed.
+Print Assumptions C03_signal_jet_mixed.
+Print Assumptions C03_signal_jet_diag.
+
+(* composed with (4): the Hessian entry returned by the bookkeeping over C IS the second (mixed) derivative of
+   the simulated signal; the Jacobian entries are the first derivatives; the simulated signal is the family's *)
+Theorem C03_hessian_is_mixed_derivative (x0 y0 : R) (v1 v2 : var) (fprog : list (Jet2.fop (R * R)))
+  (jprog : list (op Jet2.DDC)) (prog2 : list (dinstr Cops)) (pd : C) :
+  Forall2 (Jet2.is_jet (R * R) Jet2.DDC (Jet2.jet2 x0 y0) Jet2.inj4) fprog jprog ->
+  DiffPoint2.prog_ok12 Jet2.DDC Cops Jet2.e00 Jet2.e10 Jet2.e01 Jet2.e11 v1 v2 jprog prog2 (dinit (@init Cops pd)) ->
+  let ds := drun prog2 (dinit (@init Cops pd)) in
+  let sig := fun x y => f0 Cops (Jet2.frun (R * R) fprog (x, y) (@init Cops pd)) in
+  exists h j1 j2 : C,
+    nth 1 (nth 0 (hessian ds [v1; v2]) []) k0 = h /\
+    nth 0 (nth 1 (hessian ds [v1; v2]) []) k0 = h /\
+    jacobian ds [v1; v2] = [j1; j2] /\
+    derC (fun x => sig x y0) x0 j1 /\
+    (exists sy : R -> C, locally x0 (fun x => derC (fun y => sig x y) y0 (sy x)) /\ sy x0 = j2 /\ derC sy x0 h) /\
+    f0 Cops (d_main ds) = sig x0 y0.
+Proof. exact (Jet2.hessian_is_mixed_derivative x0 y0 v1 v2 fprog jprog prog2 pd). Qed.
+Theorem C03_hessian_is_second_derivative (x0 : R) (v : var) (fprog : list (Jet2.fop R))
+  (jprog : list (op Jet2.DDC)) (prog2 : list (dinstr Cops)) (pd : C) :
+  Forall2 (Jet2.is_jet R Jet2.DDC (Jet2.jet1 x0) Jet2.inj4) fprog jprog ->
+  DiffPoint2.prog_ok12 Jet2.DDC Cops Jet2.e00 Jet2.e10 Jet2.e01 Jet2.e11 v v jprog prog2 (dinit (@init Cops pd)) ->
+  let ds := drun prog2 (dinit (@init Cops pd)) in
+  let sig := fun x => f0 Cops (Jet2.frun R fprog x (@init Cops pd)) in
+  exists h j : C,
+    hessian ds [v] = [[h]] /\ jacobian ds [v] = [j] /\
+    (exists sig' : R -> C, locally x0 (fun x => derC sig x (sig' x)) /\ sig' x0 = j /\ derC sig' x0 h) /\
+    f0 Cops (d_main ds) = sig x0.
+Proof. exact (Jet2.hessian_is_second_derivative x0 v fprog jprog prog2 pd). Qed.
+Print Assumptions C03_hessian_is_mixed_derivative.
+Print Assumptions C03_hessian_is_second_derivative.
+
+(* (6) END TO END for the real operators, declared as Sequence.build declares them for affine parameters and ONE
+   requested pair: order1 = {var: {param: c}}, order2 = {Pair(u,w): {}} (auto_cross_derivatives = False) on every
+   operator carrying u or w, nothing on the others; d_d2arrs / d_params2 list exactly the pairs that
+   parameters_order2 reaches ([Shapes2.dopD], [dopV], [dopXY], [dop0]).
+   Diagonal entry: one variable driving one parameter per operator affinely. *)
+Theorem C03_real_sequence_hessian_diag (x0 : R) (v : var) (items : list RealSeq2.ritem1) (pd : C) :
+  List.Forall (RealSeq2.item1_ok x0) items ->
+  let ds := drun (map (RealSeq2.dop1_of x0 v) items) (dinit (@init Cops pd)) in
+  let sig := fun x => f0 Cops (run (map (RealSeq2.real1_of x) items) (@init Cops pd)) in
+  exists h j : C,
+    hessian ds [v] = [[h]] /\ jacobian ds [v] = [j] /\
+    (exists sig' : R -> C, locally x0 (fun x => derC sig x (sig' x)) /\ sig' x0 = j /\ derC sig' x0 h) /\
+    f0 Cops (d_main ds) = sig x0.
+Proof. exact (RealSeq2.real_sequence_hessian_diag x0 v items pd). Qed.
+(* T in alpha or phi, Phi, E in tau, T1, T2 or g, P in tau or g, R in Re rT, rL or r0 (translated arrays and
+   derivative tables), constants, shifts; in Coquelicot's vocabulary: is_derive_n ... 2 *)
+Theorem C03_real_operators_hessian_diag (x0 : R) (v : var) (items : list RealSeq2.ritem1) (pd : C) :
+  List.Forall (RealOps2.real_item1 x0) items ->
+  let ds := drun (map (RealSeq2.dop1_of x0 v) items) (dinit (@init Cops pd)) in
+  let sig := fun x => f0 Cops (run (map (RealSeq2.real1_of x) items) (@init Cops pd)) in
+  exists h j : C,
+    hessian ds [v] = [[h]] /\ jacobian ds [v] = [j] /\
+    (exists sig' : R -> C, locally x0 (fun x => derC sig x (sig' x)) /\ sig' x0 = j /\ derC sig' x0 h) /\
+    f0 Cops (d_main ds) = sig x0.
+Proof. exact (RealOps2.real_operators_hessian_diag x0 v items pd). Qed.
+Theorem C03_real_operators_hessian_diag_n (x0 : R) (v : var) (items : list RealSeq2.ritem1) (pd : C) :
+  List.Forall (RealOps2.real_item1 x0) items ->
+  let ds := drun (map (RealSeq2.dop1_of x0 v) items) (dinit (@init Cops pd)) in
+  let sig := fun x => f0 Cops (run (map (RealSeq2.real1_of x) items) (@init Cops pd)) in
+  exists h : C, hessian ds [v] = [[h]] /\
+    is_derive_n (fun x => fst (sig x)) 2 x0 (fst h) /\ is_derive_n (fun x => snd (sig x)) 2 x0 (snd h).
+Proof. exact (RealOps2.real_operators_hessian_diag_n x0 v items pd). Qed.
+Print Assumptions C03_real_sequence_hessian_diag.
+Print Assumptions C03_real_operators_hessian_diag.
+Print Assumptions C03_real_operators_hessian_diag_n.
+
+(* Mixed entry: two variables u <> w; every operator is constant, or has one parameter driven by x (u), or one
+   driven by y (w), or one parameter driven by x AND another one driven by y (same operator, mixed tables) *)
+Theorem C03_real_sequence_hessian_mixed (x0 y0 : R) (u w : var) (items : list RealSeq2.ritem2) (pd : C) :
+  u <> w -> List.Forall (RealSeq2.item2_ok x0 y0) items ->
+  let ds := drun (map (RealSeq2.dop2_of x0 y0 u w) items) (dinit (@init Cops pd)) in
+  let sig := fun x y => f0 Cops (run (map (RealSeq2.real2_of x y) items) (@init Cops pd)) in
+  exists h j1 j2 : C,
+    nth 1 (nth 0 (hessian ds [u; w]) []) k0 = h /\
+    nth 0 (nth 1 (hessian ds [u; w]) []) k0 = h /\
+    jacobian ds [u; w] = [j1; j2] /\
+    derC (fun x => sig x y0) x0 j1 /\
+    (exists sy : R -> C, locally x0 (fun x => derC (fun y => sig x y) y0 (sy x)) /\ sy x0 = j2 /\ derC sy x0 h) /\
+    f0 Cops (d_main ds) = sig x0 y0.
+Proof. exact (RealSeq2.real_sequence_hessian_mixed x0 y0 u w items pd). Qed.
+(* any operators of the first-order theorem driven by u resp. w, and T (alpha, phi), E (T2, tau), (T1, tau),
+   (g, tau), (T2, g), P (g, tau) with the two variables on two parameters of the same operator *)
+Theorem C03_real_operators_hessian_mixed (x0 y0 : R) (u w : var) (items : list RealSeq2.ritem2) (pd : C) :
+  u <> w -> List.Forall (RealOps2.real_item2 x0 y0) items ->
+  let ds := drun (map (RealSeq2.dop2_of x0 y0 u w) items) (dinit (@init Cops pd)) in
+  let sig := fun x y => f0 Cops (run (map (RealSeq2.real2_of x y) items) (@init Cops pd)) in
+  exists h j1 j2 : C,
+    nth 1 (nth 0 (hessian ds [u; w]) []) k0 = h /\
+    nth 0 (nth 1 (hessian ds [u; w]) []) k0 = h /\
+    jacobian ds [u; w] = [j1; j2] /\
+    derC (fun x => sig x y0) x0 j1 /\
+    (exists sy : R -> C, locally x0 (fun x => derC (fun y => sig x y) y0 (sy x)) /\ sy x0 = j2 /\ derC sy x0 h) /\
+    f0 Cops (d_main ds) = sig x0 y0.
+Proof. exact (RealOps2.real_operators_hessian_mixed x0 y0 u w items pd). Qed.
+Theorem C03_real_operators_hessian_mixed_Derive (x0 y0 : R) (u w : var) (items : list RealSeq2.ritem2) (pd : C) :
+  u <> w -> List.Forall (RealOps2.real_item2 x0 y0) items ->
+  let ds := drun (map (RealSeq2.dop2_of x0 y0 u w) items) (dinit (@init Cops pd)) in
+  let sig := fun x y => f0 Cops (run (map (RealSeq2.real2_of x y) items) (@init Cops pd)) in
+  exists h : C,
+    nth 1 (nth 0 (hessian ds [u; w]) []) k0 = h /\ nth 0 (nth 1 (hessian ds [u; w]) []) k0 = h /\
+    is_derive (fun x => Derive (fun y => fst (sig x y)) y0) x0 (fst h) /\
+    is_derive (fun x => Derive (fun y => snd (sig x y)) y0) x0 (snd h).
+Proof. exact (RealOps2.real_operators_hessian_mixed_Derive x0 y0 u w items pd). Qed.
+Print Assumptions C03_real_sequence_hessian_mixed.
+Print Assumptions C03_real_operators_hessian_mixed.
+Print Assumptions C03_real_operators_hessian_mixed_Derive.
+
+(* non-vacuity of (6): the side conditions hold for concrete sequences -- six operators each: T, E, shift, T, E, P
+   with one variable on alpha, T2, phi, tau, g (x0 = 20); resp. two variables on (alpha, phi) of one T, (T2, tau)
+   of one E, (tau, g) of one P and on single parameters of further operators (x0 = 20, y0 = 3) *)
+Example C03_real_items_nonvacuous :
+  List.Forall (RealOps2.real_item1 20) RealOps2.nv_items1 /\ List.Forall (RealOps2.real_item2 20 3) RealOps2.nv_items2.
+Proof. exact (conj RealOps2.nv_items1_ok RealOps2.nv_items2_ok). Qed.
+Print Assumptions C03_real_items_nonvacuous.
